@@ -379,20 +379,16 @@ def parse_partition(repo):
     sig = [r"\bkth\s*:\s*usize\b", r"\bsort\s*:\s*bool\b", r"\brev\s*:\s*bool\b"]
     who, src = body_of(repo, VM, "vpartition", sig)
     _, c = must(T_VPART, src, who, "body")
-    for a, b in (("k1", "k1b"), ("t1", "t1b"), ("t2", "t2b"), ("t3", "t3b")):
-        if c[a] != c[b]: bad(who, "to_trust(..) does not repeat the length `kth + %d`" % c[a])
     pads = [one_of(c[k], [("std::iter::repeat(T::none())", "PadEager"), ("std::iter::repeat_with(T::none)", "PadLazy"),
                           ("std::iter::repeat_with(|| T::none())", "PadLazy")], who, "padding", {}) for k in ("pad1", "pad2")]
-    vp = dict(exact=(c["g1"], c["k1"]), small=(c["g2"], c["k2"]), arms=[(pads[0], c["t1"]), (pads[1], c["t2"])],
+    vp = dict(exact=(c["g1"], c["k1"], c["k1b"]), small=(c["g2"], c["k2"]), arms=[(pads[0], c["t1"], c["t1b"]), (pads[1], c["t2"], c["t2b"])],
               small_dir=[sortcmp(c["c1"], who), sortcmp(c["c2"], who)], dir=[sortcmp(c["c3"], who), sortcmp(c["c4"], who)],
-              sel=_kth_off(c["sel"], who), trunc=c["t3"])
+              sel=_kth_off(c["sel"], who), trunc=c["t3"], trust=c["t3b"])
     who, src = body_of(repo, VM, "varg_partition", sig)
     _, c = must(T_VARGPART, src, who, "body")
-    for a, b in (("t1", "t1b"), ("t2", "t2b"), ("t3", "t3b"), ("t4", "t4b")):
-        if c[a] != c[b]: bad(who, "to_trust(..) does not repeat the length `kth + %d`" % c[a])
-    va = dict(small=(c["g2"], c["k2"]), arms=[(c["p1"], c["t1"]), (c["p2"], c["t2"])],
+    va = dict(small=(c["g2"], c["k2"]), arms=[(c["p1"], c["t1"], c["t1b"]), (c["p2"], c["t2"], c["t2b"])],
               small_dir=[sortcmp(c["c1"], who), sortcmp(c["c2"], who)],
-              general=[(sortcmp(c["c3"], who), _kth_off(c["sel3"], who), c["t3"]), (sortcmp(c["c4"], who), _kth_off(c["sel4"], who), c["t4"])])
+              general=[(sortcmp(c["c3"], who), _kth_off(c["sel3"], who), c["t3"], c["t3b"]), (sortcmp(c["c4"], who), _kth_off(c["sel4"], who), c["t4"], c["t4b"])])
     return vp, va
 
 _RK_LOOP = r"""for $i in 0..$len - 1 {
@@ -459,25 +455,25 @@ def parse_vrank(repo):
 def render_c12(vp, va, rk):
     return ["(* ---- (c) C12: tea-map/src/vec_map.rs vpartition / varg_partition / vrank (conformance: coq/Proofs/SrcTablesMapPart.v) ---- *)",
             "Inductive src_pad := PadEager | PadLazy.     (* repeat(T::none()) | repeat_with(T::none) *)",
-            "(* vpartition.  `(n <op> kth + k) && !sort` -> the valid elements as they are *)",
-            "Definition src_vpartition_exact : src_cmp * nat := (%s, %d%%nat)." % vp["exact"],
-            "(* `n <op> kth + k`: the short path; per value of `sort` (false, true): the padding and the K of `.take(kth + K)` *)",
+            "(* vpartition.  `(n <op> kth + k) && !sort` -> the valid elements as they are, announced as `.to_trust(kth + k')` *)",
+            "Definition src_vpartition_exact : src_cmp * nat * nat := (%s, %d%%nat, %d%%nat)." % vp["exact"],
+            "(* `n <op> kth + k`: the short path; per value of `sort` (false, true): the padding, the K of `.take(kth + K)` and of `.to_trust(kth + K)` *)",
             "Definition src_vpartition_small : src_cmp * nat := (%s, %d%%nat)." % vp["small"],
-            "Definition src_vpartition_small_arms : list (bool * (src_pad * nat)) :=",
-            cl(["(%s, (%s, %d%%nat))" % (cb(s), p, t) for s, (p, t) in zip((False, True), vp["arms"])]) + ".",
+            "Definition src_vpartition_small_arms : list (bool * (src_pad * nat * nat)) :=",
+            cl(["(%s, (%s, %d%%nat, %d%%nat))" % (cb(s), p, t, tr) for s, (p, t, tr) in zip((False, True), vp["arms"])]) + ".",
             "(* the comparator per value of `rev`, in the sorted short path and in the general path *)",
             "Definition src_vpartition_small_dir : list (bool * src_sortcmp) := [(false, %s); (true, %s)]." % tuple(vp["small_dir"]),
             "Definition src_vpartition_dir : list (bool * src_sortcmp) := [(false, %s); (true, %s)]." % tuple(vp["dir"]),
-            "(* general path: select_nth_unstable_by(kth + s, ..); truncate(kth + t); `if sort` sorts what is left *)",
-            "Definition src_vpartition_select : nat * nat := (%d%%nat, %d%%nat)." % (vp["sel"], vp["trunc"]),
-            "(* varg_partition.  `n <op> kth + k`; per value of `sort`: the P of `repeat(-P)` and the K of `.take(kth + K)` *)",
+            "(* general path: select_nth_unstable_by(kth + s, ..); truncate(kth + t); `if sort` sorts what is left; to_trust(kth + t') *)",
+            "Definition src_vpartition_select : nat * nat * nat := (%d%%nat, %d%%nat, %d%%nat)." % (vp["sel"], vp["trunc"], vp["trust"]),
+            "(* varg_partition.  `n <op> kth + k`; per value of `sort`: the P of `repeat(-P)`, the K of `.take(kth + K)` and of `.to_trust(kth + K)` *)",
             "Definition src_varg_partition_small : src_cmp * nat := (%s, %d%%nat)." % va["small"],
-            "Definition src_varg_partition_small_arms : list (bool * (nat * nat)) :=",
-            cl(["(%s, (%d%%nat, %d%%nat))" % (cb(s), p, t) for s, (p, t) in zip((False, True), va["arms"])]) + ".",
+            "Definition src_varg_partition_small_arms : list (bool * (nat * nat * nat)) :=",
+            cl(["(%s, (%d%%nat, %d%%nat, %d%%nat))" % (cb(s), p, t, tr) for s, (p, t, tr) in zip((False, True), va["arms"])]) + ".",
             "Definition src_varg_partition_small_dir : list (bool * src_sortcmp) := [(false, %s); (true, %s)]." % tuple(va["small_dir"]),
-            "(* general path per value of `rev`: comparator, s of select_nth_unstable_by(kth + s), t of truncate(kth + t) *)",
-            "Definition src_varg_partition_general : list (bool * (src_sortcmp * nat * nat)) :=",
-            cl(["(%s, (%s, %d%%nat, %d%%nat))" % (cb(r), c_, s, t) for r, (c_, s, t) in zip((False, True), va["general"])]) + ".", "",
+            "(* general path per value of `rev`: comparator, s of select_nth_unstable_by(kth + s), t of truncate(kth + t), t' of to_trust(kth + t') *)",
+            "Definition src_varg_partition_general : list (bool * (src_sortcmp * nat * nat * nat)) :=",
+            cl(["(%s, (%s, %d%%nat, %d%%nat, %d%%nat))" % (cb(r), c_, s, t, tr) for r, (c_, s, t, tr) in zip((False, True), va["general"])]) + ".", "",
             "(* vrank: comparator per value of `rev`; the length-1 early return (`OT::<f>()` for a null, else the literal);",
             "   per value of `pct` the three places the average rank of a tie group is written and the rank of a single element *)",
             "Inductive src_rk_role := RkSum | RkRep | RkCur | RkNotNoneCount.",
